@@ -10,16 +10,25 @@
 (*        w <  16: the 1-tuple <<v>> with v < 2^w (bit z of the lane = bit  *)
 (*                 z of v).                                                 *)
 (* Derived constants (constant level, TLC evaluates them once at start-up): *)
-(*   KeccakRcBits  the 255 outputs rc(0..254) of the LFSR x^8+x^6+x^5+x^4+1 *)
-(*                 (FIPS 202 algorithm 5)                                   *)
-(*   KeccakRCTab   RC[0..23] as 64-bit lanes: bit 2^j - 1 = rc(j + 7 ir)    *)
+(*   KeccakRCTab   RC[0..23] as 64-bit lanes: bit 2^j - 1 = rc(j + 7 ir),   *)
+(*                 rc(t) from the LFSR x^8+x^6+x^5+x^4+1 (FIPS 202 alg. 5)  *)
 (*   KeccakRho     the 25 rho offsets (t+1)(t+2)/2 along the walk           *)
 (*                 (x,y) <- (y, 2x+3y) from (1,0), NOT reduced mod w        *)
 (*   KeccakPiSrc   for each target index 5Y+X+1 of pi the source index of   *)
 (*                 lane ((X+3Y) % 5, X)                                     *)
+(* TLC caches such a definition only if (a) its start-up evaluation on the  *)
+(* main thread (small stack, -Xss from JAVA_TOOL_OPTIONS does not apply)    *)
+(* succeeds, hence the shallow recursions, and (b) no identifier reachable  *)
+(* from its body (parameter, LET or bound name) is spelt like a VARIABLE of *)
+(* the root module: TLC's level check goes by name and then silently        *)
+(* re-derives the "constant" at every use (x 2.3 on the permutation,        *)
+(* measured).  Hence the unusual kc* names in the derivations below, which  *)
+(* also avoid Words!BuildW / ZeroW (parameters i, n, acc).                  *)
 (* Interface:                                                               *)
 (*   KeccakL(w)              log2(w)                                        *)
 (*   KeccakRounds(w)         12 + 2 log2(w)                                 *)
+(*   KeccakRc(t)             rc(t), any integer t                           *)
+(*   KeccakRC64(ir)          RC[ir] for w = 64 (4 limbs), any integer ir    *)
 (*   LaneZero(w)             the all-zero lane                              *)
 (*   LaneRol(w, x, k)        lane x rotated towards higher z by k (k >= 0)  *)
 (*   KeccakRC(w, ir)         RC[ir] truncated to w bits, as a lane; any     *)
